@@ -3,4 +3,704 @@ import DC.Proofs.Defs
 
 namespace DC.Cache
 
+/-! ### list facts -/
+
+/-- filtering `T ++ D` with a predicate false on `T` and true on `D` leaves `D` -/
+theorem filter_append_cut {α} (q : α → Bool) (T D : List α)
+    (hT : ∀ t ∈ T, q t = false) (hD : ∀ d ∈ D, q d = true) :
+    (T ++ D).filter q = D := by
+  rw [List.filter_append]
+  have h1 : T.filter q = [] := by
+    rw [List.filter_eq_nil_iff]; intro a ha; simp [hT a ha]
+  have h2 : D.filter q = D := by
+    rw [List.filter_eq_self]; exact hD
+  rw [h1, h2]; rfl
+
+theorem take_nil_of_pos {α} (l : List α) (p : Nat) (hp : 0 < p) (h : l.take p = []) : l = [] := by
+  cases l with
+  | nil => rfl
+  | cons a t =>
+    cases p with
+    | zero => omega
+    | succ k => simp at h
+
+theorem rowidsAsc_filter {rows : List Row} (q : Row → Bool) (h : RowidsAsc rows) :
+    RowidsAsc (rows.filter q) := List.Pairwise.filter q h
+
+theorem rowidsAsc_eq_of_rowid {rows : List Row} (h : RowidsAsc rows) {a b : Row}
+    (ha : a ∈ rows) (hb : b ∈ rows) (hab : a.rowid = b.rowid) : a = b := by
+  induction rows with
+  | nil => cases ha
+  | cons x xs ih =>
+    have hx := List.pairwise_cons.mp h
+    rcases List.mem_cons.mp ha with rfl | ha' <;> rcases List.mem_cons.mp hb with rfl | hb'
+    · rfl
+    · have := hx.1 b hb'; omega
+    · have := hx.1 a ha'; omega
+    · exact ih hx.2 ha' hb'
+
+theorem sumSizes_nil : sumSizes [] = 0 := rfl
+theorem sumSizes_cons (r : Row) (l : List Row) : sumSizes (r :: l) = r.size + sumSizes l := by
+  simp [sumSizes]
+theorem sumSizes_append (a b : List Row) : sumSizes (a ++ b) = sumSizes a + sumSizes b := by
+  simp [sumSizes]
+
+/-! ### ghost logging -/
+
+@[simp] theorem log_rows (s : Cache) (a : Act) : (s.log a).rows = s.rows := rfl
+@[simp] theorem log_count (s : Cache) (a : Act) : (s.log a).count = s.count := rfl
+@[simp] theorem log_size (s : Cache) (a : Act) : (s.log a).size = s.size := rfl
+@[simp] theorem log_cfg (s : Cache) (a : Act) : (s.log a).cfg = s.cfg := rfl
+@[simp] theorem log_files (s : Cache) (a : Act) : (s.log a).files = s.files := rfl
+@[simp] theorem log_depth (s : Cache) (a : Act) : (s.log a).depth = s.depth := rfl
+@[simp] theorem logSql_rows (s : Cache) (a : String) : (s.logSql a).rows = s.rows := rfl
+@[simp] theorem logSql_count (s : Cache) (a : String) : (s.logSql a).count = s.count := rfl
+@[simp] theorem logSql_size (s : Cache) (a : String) : (s.logSql a).size = s.size := rfl
+@[simp] theorem logSql_cfg (s : Cache) (a : String) : (s.logSql a).cfg = s.cfg := rfl
+@[simp] theorem logSql_files (s : Cache) (a : String) : (s.logSql a).files = s.files := rfl
+@[simp] theorem logSql_depth (s : Cache) (a : String) : (s.logSql a).depth = s.depth := rfl
+@[simp] theorem log_fileGet (s : Cache) (a : Act) (f : Nat) : (s.log a).fileGet f = s.fileGet f := rfl
+@[simp] theorem logSql_fileGet (s : Cache) (a : String) (f : Nat) :
+    (s.logSql a).fileGet f = s.fileGet f := rfl
+
+/-! ### file removal -/
+
+theorem fileGet_none_iff (s : Cache) (f : Nat) : s.fileGet f = none ↔ ∀ p ∈ s.files, p.1 ≠ f := by
+  simp [fileGet, List.find?_eq_none]
+
+@[simp] theorem fremove_rows (s : Cache) (f : Nat) : (s.fremove f).rows = s.rows := rfl
+@[simp] theorem fremove_count (s : Cache) (f : Nat) : (s.fremove f).count = s.count := rfl
+@[simp] theorem fremove_size (s : Cache) (f : Nat) : (s.fremove f).size = s.size := rfl
+@[simp] theorem fremove_cfg (s : Cache) (f : Nat) : (s.fremove f).cfg = s.cfg := rfl
+@[simp] theorem fremove_depth (s : Cache) (f : Nat) : (s.fremove f).depth = s.depth := rfl
+@[simp] theorem fremove_files (s : Cache) (f : Nat) :
+    (s.fremove f).files = s.files.filter (·.1 != f) := rfl
+
+theorem fremove_fileGet_self (s : Cache) (f : Nat) : (s.fremove f).fileGet f = none := by
+  rw [fileGet_none_iff]; intro p hp
+  simp at hp; exact hp.2
+
+theorem fremove_fileGet_mono (s : Cache) (f g : Nat) (h : s.fileGet g = none) :
+    (s.fremove f).fileGet g = none := by
+  rw [fileGet_none_iff] at *; intro p hp
+  simp at hp; exact h p hp.1
+
+theorem fremoveAll_keep (fs : List (Option Nat)) : ∀ s : Cache,
+    (s.fremoveAll fs).rows = s.rows ∧ (s.fremoveAll fs).count = s.count ∧
+    (s.fremoveAll fs).size = s.size ∧ (s.fremoveAll fs).cfg = s.cfg ∧
+    (s.fremoveAll fs).depth = s.depth := by
+  induction fs with
+  | nil => intro s; simp [fremoveAll]
+  | cons a t ih =>
+    intro s
+    cases a with
+    | none => simpa [fremoveAll] using ih s
+    | some f => simpa [fremoveAll] using ih (s.fremove f)
+
+theorem fremoveAll_fileGet_mono (fs : List (Option Nat)) (g : Nat) : ∀ s : Cache,
+    s.fileGet g = none → (s.fremoveAll fs).fileGet g = none := by
+  induction fs with
+  | nil => intro s h; simpa [fremoveAll] using h
+  | cons a t ih =>
+    intro s h
+    cases a with
+    | none => simpa [fremoveAll] using ih s h
+    | some f => simpa [fremoveAll] using ih (s.fremove f) (fremove_fileGet_mono s f g h)
+
+theorem fremoveAll_fileGet_mem (fs : List (Option Nat)) (g : Nat) : ∀ s : Cache,
+    some g ∈ fs → (s.fremoveAll fs).fileGet g = none := by
+  induction fs with
+  | nil => intro s h; cases h
+  | cons a t ih =>
+    intro s h
+    rcases List.mem_cons.mp h with rfl | h'
+    · simpa [fremoveAll] using fremoveAll_fileGet_mono t g (s.fremove g) (fremove_fileGet_self s g)
+    · cases a with
+      | none => simpa [fremoveAll] using ih s h'
+      | some f => simpa [fremoveAll] using ih (s.fremove f) h'
+
+/-! ### DELETE … WHERE rowid IN (…) -/
+
+theorem delRowQuiet_rows (s : Cache) (id : Nat) :
+    (s.delRowQuiet id).rows = s.rows.filter (·.rowid != id) := by
+  unfold delRowQuiet
+  split
+  · rfl
+  · rename_i h
+    symm; rw [List.filter_eq_self]
+    intro a ha
+    have := List.find?_eq_none.mp h a ha
+    simpa using this
+
+@[simp] theorem delRowQuiet_cfg (s : Cache) (id : Nat) : (s.delRowQuiet id).cfg = s.cfg := by
+  unfold delRowQuiet; split <;> rfl
+@[simp] theorem delRowQuiet_files (s : Cache) (id : Nat) : (s.delRowQuiet id).files = s.files := by
+  unfold delRowQuiet; split <;> rfl
+@[simp] theorem delRowQuiet_depth (s : Cache) (id : Nat) : (s.delRowQuiet id).depth = s.depth := by
+  unfold delRowQuiet; split <;> rfl
+
+theorem delRowQuiet_counters (s : Cache) (hasc : RowidsAsc s.rows) (r : Row) (hr : r ∈ s.rows) :
+    (s.delRowQuiet r.rowid).count = s.count - 1 ∧ (s.delRowQuiet r.rowid).size = s.size - r.size := by
+  unfold delRowQuiet
+  split
+  · rename_i r' h
+    have hm := List.mem_of_find?_eq_some h
+    have hp := List.find?_some h
+    have : r' = r := rowidsAsc_eq_of_rowid hasc hm hr (by simpa using hp)
+    subst this
+    exact ⟨rfl, rfl⟩
+  · rename_i h
+    have := List.find?_eq_none.mp h r hr
+    simp at this
+
+theorem delIn_keep (ids : List Nat) : ∀ s : Cache,
+    (s.delIn ids).cfg = s.cfg ∧ (s.delIn ids).files = s.files ∧ (s.delIn ids).depth = s.depth := by
+  induction ids with
+  | nil => intro s; simp [delIn]
+  | cons a t ih =>
+    intro s
+    have := ih (s.delRowQuiet a)
+    simpa [delIn] using this
+
+theorem delIn_rows (ids : List Nat) : ∀ s : Cache,
+    (s.delIn ids).rows = s.rows.filter (fun r => !ids.contains r.rowid) := by
+  induction ids with
+  | nil =>
+    intro s
+    show s.rows = _
+    symm; rw [List.filter_eq_self]; intro a _; rfl
+  | cons a t ih =>
+    intro s
+    have := ih (s.delRowQuiet a)
+    simp only [delIn, List.foldl_cons] at this ⊢
+    rw [this, delRowQuiet_rows, List.filter_filter]
+    apply List.filter_congr
+    intro r _
+    simp [Bool.and_comm]
+    grind
+
+/-- on a table with distinct rowids, deleting the rowids of some of its rows removes exactly
+those rows -/
+theorem delIn_rows_mem (s : Cache) (hasc : RowidsAsc s.rows) (page : List Row)
+    (hsub : ∀ r ∈ page, r ∈ s.rows) :
+    (s.delIn (page.map (·.rowid))).rows = s.rows.filter (fun r => !page.contains r) := by
+  rw [delIn_rows]
+  apply List.filter_congr
+  intro r hr
+  congr 1
+  rw [Bool.eq_iff_iff]
+  simp only [List.contains_iff_mem, List.mem_map]
+  constructor
+  · rintro ⟨a, ha, hab⟩
+    have := rowidsAsc_eq_of_rowid hasc (hsub a ha) hr hab
+    subst this; exact ha
+  · intro h; exact ⟨r, h, rfl⟩
+
+theorem delIn_counters (page : List Row) : ∀ s : Cache, RowidsAsc s.rows → RowidsAsc page →
+    (∀ r ∈ page, r ∈ s.rows) →
+    (s.delIn (page.map (·.rowid))).count = s.count - page.length ∧
+    (s.delIn (page.map (·.rowid))).size = s.size - sumSizes page := by
+  induction page with
+  | nil => intro s _ _ _; simp [delIn, sumSizes]
+  | cons a t ih =>
+    intro s hasc hp hsub
+    have hpc := List.pairwise_cons.mp hp
+    have ha : a ∈ s.rows := hsub a (by simp)
+    have hc := delRowQuiet_counters s hasc a ha
+    have hasc' : RowidsAsc (s.delRowQuiet a.rowid).rows := by
+      rw [delRowQuiet_rows]; exact rowidsAsc_filter _ hasc
+    have hsub' : ∀ r ∈ t, r ∈ (s.delRowQuiet a.rowid).rows := by
+      intro r hr
+      rw [delRowQuiet_rows, List.mem_filter]
+      refine ⟨hsub r (by simp [hr]), ?_⟩
+      have := hpc.1 r hr
+      simp; omega
+    have := ih (s.delRowQuiet a.rowid) hasc' hpc.2 hsub'
+    simp only [delIn, List.map_cons, List.foldl_cons] at this ⊢
+    rw [this.1, this.2, hc.1, hc.2, sumSizes_cons]
+    simp only [List.length_cons]
+    constructor <;> omega
+
+/-! ### one page of `_select_delete` -/
+
+theorem delRowQuiet_congr (a b : Cache) (id : Nat)
+    (h : a.rows = b.rows ∧ a.count = b.count ∧ a.size = b.size) :
+    (a.delRowQuiet id).rows = (b.delRowQuiet id).rows ∧
+    (a.delRowQuiet id).count = (b.delRowQuiet id).count ∧
+    (a.delRowQuiet id).size = (b.delRowQuiet id).size := by
+  unfold delRowQuiet
+  rw [h.1]
+  split <;> simp [h.1, h.2.1, h.2.2]
+
+theorem delIn_congr (ids : List Nat) : ∀ a b : Cache,
+    (a.rows = b.rows ∧ a.count = b.count ∧ a.size = b.size) →
+    (a.delIn ids).rows = (b.delIn ids).rows ∧
+    (a.delIn ids).count = (b.delIn ids).count ∧
+    (a.delIn ids).size = (b.delIn ids).size := by
+  induction ids with
+  | nil => intro a b h; exact h
+  | cons x t ih =>
+    intro a b h
+    exact ih _ _ (delRowQuiet_congr a b x h)
+
+/-- the transaction body of `deletePage` -/
+def pageBody (page : List Row) (sel : String) (s : Cache) : Body :=
+  let s := s.logSql sel
+  if page.isEmpty then { s := s, out := .none }
+  else { s := (s.delIn (page.map (·.rowid))).logSql "delList", out := .none,
+         cleanup := page.map (·.file) }
+
+theorem deletePage_eq (s : Cache) (page : List Row) (sel : String) :
+    s.deletePage page sel = (s.transact (pageBody page sel)).1 := rfl
+
+theorem pageBody_ok (page : List Row) (sel : String) (s : Cache) :
+    (pageBody page sel s).ok = true := by
+  unfold pageBody; split <;> rfl
+
+theorem pageBody_cleanup (page : List Row) (sel : String) (s : Cache) :
+    (pageBody page sel s).cleanup = page.map (·.file) := by
+  unfold pageBody
+  cases page <;> rfl
+
+theorem pageBody_keep (page : List Row) (sel : String) (s : Cache) :
+    (pageBody page sel s).s.rows = (s.delIn (page.map (·.rowid))).rows ∧
+    (pageBody page sel s).s.count = (s.delIn (page.map (·.rowid))).count ∧
+    (pageBody page sel s).s.size = (s.delIn (page.map (·.rowid))).size ∧
+    (pageBody page sel s).s.cfg = s.cfg ∧
+    (pageBody page sel s).s.depth = s.depth ∧
+    (pageBody page sel s).s.files = s.files := by
+  unfold pageBody
+  cases page with
+  | nil => simp [delIn]
+  | cons a t =>
+    have hk := delIn_keep ((a :: t).map (·.rowid)) (s.logSql sel)
+    have hc := delIn_congr ((a :: t).map (·.rowid)) (s.logSql sel) s ⟨rfl, rfl, rfl⟩
+    simp only [List.isEmpty_cons, Bool.false_eq_true, if_false, logSql_rows, logSql_count,
+      logSql_size, logSql_cfg, logSql_depth, logSql_files]
+    exact ⟨hc.1, hc.2.1, hc.2.2, hk.1, hk.2.2, hk.2.1⟩
+
+theorem transact_pos (s : Cache) (body : Cache → Body) (hd : s.depth > 0) :
+    (s.transact body).1.rows = (body s).s.rows ∧
+    (s.transact body).1.count = (body s).s.count ∧
+    (s.transact body).1.size = (body s).s.size ∧
+    (s.transact body).1.cfg = (body s).s.cfg ∧
+    (s.transact body).1.depth = (body s).s.depth ∧
+    (s.transact body).1.files = (body s).s.files := by
+  unfold transact
+  simp only [hd, if_true]
+  split <;> simp
+
+theorem transact_zero (s : Cache) (body : Cache → Body) (hd : s.depth = 0)
+    (hok : (body (s.log .begin)).ok = true) :
+    (s.transact body).1 =
+      ((body (s.log .begin)).s.log .commit).fremoveAll (body (s.log .begin)).cleanup := by
+  unfold transact
+  simp [hd, hok]
+
+theorem deletePage_keep (s : Cache) (page : List Row) (sel : String) :
+    (s.deletePage page sel).rows = (s.delIn (page.map (·.rowid))).rows ∧
+    (s.deletePage page sel).count = (s.delIn (page.map (·.rowid))).count ∧
+    (s.deletePage page sel).size = (s.delIn (page.map (·.rowid))).size ∧
+    (s.deletePage page sel).cfg = s.cfg ∧
+    (s.deletePage page sel).depth = s.depth := by
+  rw [deletePage_eq]
+  by_cases hd : s.depth > 0
+  · have ht := transact_pos s (pageBody page sel) hd
+    have hb := pageBody_keep page sel s
+    rw [ht.1, ht.2.1, ht.2.2.1, ht.2.2.2.1, ht.2.2.2.2.1]
+    exact ⟨hb.1, hb.2.1, hb.2.2.1, hb.2.2.2.1, hb.2.2.2.2.1⟩
+  · have hd0 : s.depth = 0 := by omega
+    rw [transact_zero s _ hd0 (pageBody_ok _ _ _)]
+    have hf := fremoveAll_keep (pageBody page sel (s.log .begin)).cleanup
+      ((pageBody page sel (s.log .begin)).s.log .commit)
+    have hb := pageBody_keep page sel (s.log .begin)
+    have hc := delIn_congr (page.map (·.rowid)) (s.log .begin) s ⟨rfl, rfl, rfl⟩
+    rw [hf.1, hf.2.1, hf.2.2.1, hf.2.2.2.1, hf.2.2.2.2]
+    simp only [log_rows, log_count, log_size, log_cfg, log_depth]
+    rw [hb.1, hb.2.1, hb.2.2.1, hb.2.2.2.1, hb.2.2.2.2.1]
+    exact ⟨hc.1, hc.2.1, hc.2.2, rfl, rfl⟩
+
+theorem fileGet_congr (a b : Cache) (g : Nat) (h : a.files = b.files) :
+    a.fileGet g = b.fileGet g := by
+  simp [fileGet, h]
+
+theorem deletePage_fileGet_mono (s : Cache) (page : List Row) (sel : String) (g : Nat)
+    (h : s.fileGet g = none) : (s.deletePage page sel).fileGet g = none := by
+  rw [deletePage_eq]
+  by_cases hd : s.depth > 0
+  · have ht := transact_pos s (pageBody page sel) hd
+    have hb := pageBody_keep page sel s
+    rw [fileGet_congr _ s g (ht.2.2.2.2.2.trans hb.2.2.2.2.2)]
+    exact h
+  · have hd0 : s.depth = 0 := by omega
+    rw [transact_zero s _ hd0 (pageBody_ok _ _ _)]
+    apply fremoveAll_fileGet_mono
+    have hb := pageBody_keep page sel (s.log .begin)
+    rw [log_fileGet, fileGet_congr _ s g (hb.2.2.2.2.2.trans rfl)]
+    exact h
+
+theorem deletePage_fileGet_mem (s : Cache) (page : List Row) (sel : String) (g : Nat)
+    (hd : s.depth = 0) (r : Row) (hr : r ∈ page) (hf : r.file = some g) :
+    (s.deletePage page sel).fileGet g = none := by
+  rw [deletePage_eq, transact_zero s _ hd (pageBody_ok _ _ _), pageBody_cleanup]
+  apply fremoveAll_fileGet_mem
+  simp only [List.mem_map]
+  exact ⟨r, hr, hf⟩
+
+/-! ### the generic cursor-paged removal loop -/
+
+/-- `clearLoop` / `evictLoop` with the row predicate abstracted -/
+def pageLoop (m : Row → Bool) (sel : String) : Nat → Cache → Nat → Nat → Cache × Nat
+  | 0, s, _, n => (s, n)
+  | fuel + 1, s, cur, n =>
+    let page := (s.rows.filter (fun r => m r && decide (r.rowid > cur))).take s.cfg.page
+    let s := s.deletePage page sel
+    match lastRow? page with
+    | none => (s, n)
+    | some r => pageLoop m sel fuel s r.rowid (n + page.length)
+
+theorem clearLoop_eq : ∀ (fuel : Nat) (s : Cache) (cur n : Nat),
+    clearLoop fuel s cur n = pageLoop (fun _ => true) "pageRowid" fuel s cur n := by
+  intro fuel
+  induction fuel with
+  | zero => intro s cur n; rfl
+  | succ k ih =>
+    intro s cur n
+    simp only [clearLoop, pageLoop, Bool.true_and, ih]
+    rfl
+
+theorem evictLoop_eq (tag : SqlVal) : ∀ (fuel : Nat) (s : Cache) (cur n : Nat),
+    evictLoop tag fuel s cur n = pageLoop (fun r => r.tag.eqv tag) "pageTag" fuel s cur n := by
+  intro fuel
+  induction fuel with
+  | zero => intro s cur n; rfl
+  | succ k ih =>
+    intro s cur n
+    simp only [evictLoop, pageLoop, ih]
+    rfl
+
+theorem lastRow?_mem {l : List Row} {r : Row} (h : lastRow? l = some r) : r ∈ l :=
+  List.mem_of_getLast? h
+
+theorem lastRow?_none {l : List Row} (h : lastRow? l = none) : l = [] :=
+  List.getLast?_eq_none_iff.mp h
+
+/-- everything one round of the loop does, in terms of `M = rows.filter m` -/
+theorem page_step (m : Row → Bool) (sel : String) (s : Cache) (cur : Nat)
+    (hasc : RowidsAsc s.rows) (hinv : ∀ r ∈ s.rows, m r = true → cur < r.rowid) :
+    let M := s.rows.filter m
+    let T := M.take s.cfg.page
+    let s' := s.deletePage T sel
+    s.rows.filter (fun r => m r && decide (r.rowid > cur)) = M ∧
+    s'.rows.filter m = M.drop s.cfg.page ∧
+    s'.rows.filter (fun r => !m r) = s.rows.filter (fun r => !m r) ∧
+    s'.count = s.count - T.length ∧
+    s'.size = s.size - sumSizes T ∧
+    RowidsAsc s'.rows ∧
+    (∀ r, r ∈ T → ∀ x ∈ s'.rows, m x = true → r.rowid < x.rowid) := by
+  intro M T s'
+  have hMasc : RowidsAsc M := rowidsAsc_filter m hasc
+  have hTD : T ++ M.drop s.cfg.page = M := List.take_append_drop _ _
+  have hTasc : RowidsAsc T := List.Pairwise.sublist (List.take_sublist _ _) hMasc
+  have hTM : ∀ r ∈ T, r ∈ M := fun r hr => List.mem_of_mem_take hr
+  have hsub : ∀ r ∈ T, r ∈ s.rows := fun r hr => (List.mem_filter.mp (hTM r hr)).1
+  have hTm : ∀ r ∈ T, m r = true := fun r hr => (List.mem_filter.mp (hTM r hr)).2
+  have hcross : ∀ t ∈ T, ∀ d ∈ M.drop s.cfg.page, t.rowid < d.rowid := by
+    have := hMasc
+    unfold RowidsAsc at this
+    rw [← hTD, List.pairwise_append] at this
+    exact this.2.2
+  have hk := deletePage_keep s T sel
+  have hrows : s'.rows = s.rows.filter (fun r => !T.contains r) := by
+    show (s.deletePage T sel).rows = _
+    rw [hk.1, delIn_rows_mem s hasc T hsub]
+  have hcnt := delIn_counters T s hasc hTasc hsub
+  have hfm : s'.rows.filter m = M.drop s.cfg.page := by
+    rw [hrows, List.filter_filter]
+    have : (s.rows.filter (fun a => m a && !T.contains a))
+        = (s.rows.filter m).filter (fun a => !T.contains a) := by
+      rw [List.filter_filter]; apply List.filter_congr; intro x _; exact Bool.and_comm _ _
+    rw [this]
+    show M.filter _ = _
+    conv => lhs; rw [← hTD]
+    apply filter_append_cut
+    · intro t ht; simp [ht]
+    · intro d hd
+      have : d ∉ T := by
+        intro hdt
+        have := hcross d hdt d hd
+        omega
+      simp [this]
+  refine ⟨?_, hfm, ?_, ?_, ?_, ?_, ?_⟩
+  · apply List.filter_congr
+    intro r hr
+    cases hm : m r with
+    | false => rfl
+    | true => simp [hinv r hr hm]
+  · rw [hrows, List.filter_filter]
+    apply List.filter_congr
+    intro x _
+    cases hm : m x with
+    | true => rfl
+    | false =>
+      have : x ∉ T := fun hx => by have := hTm x hx; simp [hm] at this
+      simp [this]
+  · show (s.deletePage T sel).count = _
+    rw [hk.2.1]; exact hcnt.1
+  · show (s.deletePage T sel).size = _
+    rw [hk.2.2.1]; exact hcnt.2
+  · rw [hrows]; exact rowidsAsc_filter _ hasc
+  · intro r hr x hx hmx
+    have hxD : x ∈ M.drop s.cfg.page := by
+      rw [← hfm]; exact List.mem_filter.mpr ⟨hx, hmx⟩
+    exact hcross r hr x hxD
+
+theorem pageLoop_spec (m : Row → Bool) (sel : String) : ∀ (fuel : Nat) (s : Cache) (cur n : Nat),
+    RowidsAsc s.rows → (∀ r ∈ s.rows, m r = true → cur < r.rowid) → 0 < s.cfg.page →
+    (s.rows.filter m).length + 1 ≤ fuel →
+    (pageLoop m sel fuel s cur n).1.rows = s.rows.filter (fun r => !m r) ∧
+    (pageLoop m sel fuel s cur n).2 = n + (s.rows.filter m).length ∧
+    (pageLoop m sel fuel s cur n).1.count = s.count - ((s.rows.filter m).length : Nat) ∧
+    (pageLoop m sel fuel s cur n).1.size = s.size - sumSizes (s.rows.filter m) ∧
+    (pageLoop m sel fuel s cur n).1.cfg = s.cfg := by
+  intro fuel
+  induction fuel with
+  | zero => intro s cur n _ _ _ hf; omega
+  | succ k ih =>
+    intro s cur n hasc hinv hp hf
+    obtain ⟨h1, h2, h3, h4, h5, h6, h7⟩ := page_step m sel s cur hasc hinv
+    have hk := deletePage_keep s ((s.rows.filter m).take s.cfg.page) sel
+    simp only [pageLoop, h1]
+    split
+    · rename_i hl
+      have hT := lastRow?_none hl
+      have hM : s.rows.filter m = [] := take_nil_of_pos _ _ hp hT
+      have h2' : (s.deletePage ((s.rows.filter m).take s.cfg.page) sel).rows.filter m = [] := by
+        rw [h2, hM]; simp
+      refine ⟨?_, ?_, ?_, ?_, hk.2.2.2.1⟩
+      · show (s.deletePage ((s.rows.filter m).take s.cfg.page) sel).rows = _
+        rw [← h3]; symm; rw [List.filter_eq_self]
+        intro a ha
+        have := List.filter_eq_nil_iff.mp h2' a ha
+        simpa using this
+      · simp [hM]
+      · show (s.deletePage ((s.rows.filter m).take s.cfg.page) sel).count = _
+        rw [h4, hT, hM]
+      · show (s.deletePage ((s.rows.filter m).take s.cfg.page) sel).size = _
+        rw [h5, hT, hM]
+    · rename_i r hl
+      have hr := lastRow?_mem hl
+      have hlen : ((s.rows.filter m).take s.cfg.page).length ≥ 1 :=
+        List.length_pos_of_mem hr
+      have hsplit : (s.rows.filter m).length
+          = ((s.rows.filter m).take s.cfg.page).length + ((s.rows.filter m).drop s.cfg.page).length := by
+        conv => lhs; rw [← List.take_append_drop s.cfg.page (s.rows.filter m)]
+        rw [List.length_append]
+      have hsum : sumSizes (s.rows.filter m)
+          = sumSizes ((s.rows.filter m).take s.cfg.page) + sumSizes ((s.rows.filter m).drop s.cfg.page) := by
+        conv => lhs; rw [← List.take_append_drop s.cfg.page (s.rows.filter m)]
+        rw [sumSizes_append]
+      have := ih (s.deletePage ((s.rows.filter m).take s.cfg.page) sel) r.rowid
+        (n + ((s.rows.filter m).take s.cfg.page).length) h6 (h7 r hr)
+        (by rw [hk.2.2.2.1]; exact hp) (by rw [h2]; omega)
+      obtain ⟨i1, i2, i3, i4, i5⟩ := this
+      rw [h2] at i2 i3 i4
+      refine ⟨by rw [i1, h3], ?_, ?_, ?_, by rw [i5, hk.2.2.2.1]⟩
+      · rw [i2]; omega
+      · rw [i3, h4]; omega
+      · rw [i4, h5, hsum]; omega
+
+theorem pageLoop_files (m : Row → Bool) (sel : String) (f : Nat) :
+    ∀ (fuel : Nat) (s : Cache) (cur n : Nat),
+    RowidsAsc s.rows → (∀ r ∈ s.rows, m r = true → cur < r.rowid) → 0 < s.cfg.page →
+    (s.rows.filter m).length + 1 ≤ fuel → s.depth = 0 →
+    ((∃ r ∈ s.rows, m r = true ∧ r.file = some f) ∨ s.fileGet f = none) →
+    (pageLoop m sel fuel s cur n).1.fileGet f = none := by
+  intro fuel
+  induction fuel with
+  | zero => intro s cur n _ _ _ hf; omega
+  | succ k ih =>
+    intro s cur n hasc hinv hp hf hd hor
+    obtain ⟨h1, h2, h3, h4, h5, h6, h7⟩ := page_step m sel s cur hasc hinv
+    have hk := deletePage_keep s ((s.rows.filter m).take s.cfg.page) sel
+    have hor' : (∃ r ∈ (s.deletePage ((s.rows.filter m).take s.cfg.page) sel).rows,
+          m r = true ∧ r.file = some f) ∨
+        (s.deletePage ((s.rows.filter m).take s.cfg.page) sel).fileGet f = none := by
+      rcases hor with ⟨r, hr, hm, hfile⟩ | hnone
+      · have hrM : r ∈ s.rows.filter m := List.mem_filter.mpr ⟨hr, hm⟩
+        rw [← List.take_append_drop s.cfg.page (s.rows.filter m), List.mem_append] at hrM
+        rcases hrM with hT | hD
+        · right; exact deletePage_fileGet_mem s _ sel f hd r hT hfile
+        · left
+          rw [← h2] at hD
+          exact ⟨r, (List.mem_filter.mp hD).1, hm, hfile⟩
+      · right; exact deletePage_fileGet_mono s _ sel f hnone
+    simp only [pageLoop, h1]
+    split
+    · rename_i hl
+      have hT := lastRow?_none hl
+      have hM : s.rows.filter m = [] := take_nil_of_pos _ _ hp hT
+      rcases hor' with ⟨r, hr, hm, _⟩ | hnone
+      · have h2' : (s.deletePage ((s.rows.filter m).take s.cfg.page) sel).rows.filter m = [] := by
+          rw [h2, hM]; simp
+        have := List.filter_eq_nil_iff.mp h2' r hr
+        simp [hm] at this
+      · exact hnone
+    · rename_i r hl
+      have hr := lastRow?_mem hl
+      have hlen : ((s.rows.filter m).take s.cfg.page).length ≥ 1 :=
+        List.length_pos_of_mem hr
+      have hsplit : (s.rows.filter m).length
+          = ((s.rows.filter m).take s.cfg.page).length + ((s.rows.filter m).drop s.cfg.page).length := by
+        conv => lhs; rw [← List.take_append_drop s.cfg.page (s.rows.filter m)]
+        rw [List.length_append]
+      exact ih (s.deletePage ((s.rows.filter m).take s.cfg.page) sel) r.rowid
+        (n + ((s.rows.filter m).take s.cfg.page).length) h6 (h7 r hr)
+        (by rw [hk.2.2.2.1]; exact hp) (by rw [h2]; omega) (by rw [hk.2.2.2.2]; exact hd) hor'
+
+/-! ### iteration -/
+
+/-- the cursor of a page cuts an ordered list exactly at the page boundary -/
+theorem cursor_cut (L : List Row) (lt : Row → Row → Prop) (hpw : L.Pairwise lt) (p : Nat) (r : Row)
+    (hl : lastRow? (L.take p) = some r) (q : Row → Bool)
+    (hq1 : ∀ x, lt x r → q x = false) (hqr : q r = false) (hq2 : ∀ x, lt r x → q x = true) :
+    L.filter q = L.drop p := by
+  obtain ⟨ys, hys⟩ := List.getLast?_eq_some_iff.mp hl
+  have hTD : L.take p ++ L.drop p = L := List.take_append_drop _ _
+  rw [← hTD] at hpw
+  obtain ⟨hT, _, hcross⟩ := List.pairwise_append.mp hpw
+  rw [hys] at hT
+  obtain ⟨_, _, hys'⟩ := List.pairwise_append.mp hT
+  conv => lhs; rw [← hTD]
+  apply filter_append_cut
+  · intro t ht
+    rw [hys] at ht
+    rcases List.mem_append.mp ht with h | h
+    · exact hq1 t (hys' t h r (by simp))
+    · simp at h; subst h; exact hqr
+  · intro d hd
+    exact hq2 d (hcross r (by rw [hys]; simp) d hd)
+
+theorem iterLoop_keep (asc : Bool) (bound : Nat) : ∀ (fuel : Nat) (s : Cache) (cur : Nat) (acc : List Row),
+    (iterLoop asc bound fuel s cur acc).1.rows = s.rows ∧
+    (iterLoop asc bound fuel s cur acc).1.files = s.files ∧
+    (iterLoop asc bound fuel s cur acc).1.cfg = s.cfg := by
+  intro fuel
+  induction fuel with
+  | zero => intro s cur acc; exact ⟨rfl, rfl, rfl⟩
+  | succ k ih =>
+    intro s cur acc
+    simp only [iterLoop]
+    split
+    · exact ⟨rfl, rfl, rfl⟩
+    · exact ih (s.logSql "pageIter") _ _
+
+theorem iterLoop_asc (bound : Nat) : ∀ (fuel : Nat) (s : Cache) (cur : Nat) (acc : List Row),
+    RowidsAsc s.rows → (∀ r ∈ s.rows, r.rowid < bound) → 0 < s.cfg.page →
+    (s.rows.filter (fun r => decide (cur < r.rowid))).length + 1 ≤ fuel →
+    (iterLoop true bound fuel s cur acc).2 = acc ++ s.rows.filter (fun r => decide (cur < r.rowid)) := by
+  intro fuel
+  induction fuel with
+  | zero => intro s cur acc _ _ _ hf; omega
+  | succ k ih =>
+    intro s cur acc hasc hb hp hf
+    have h1 : s.rows.filter (fun r => decide (cur < r.rowid) && decide (r.rowid < bound))
+        = s.rows.filter (fun r => decide (cur < r.rowid)) := by
+      apply List.filter_congr; intro r hr; simp [hb r hr]
+    simp only [iterLoop, if_true, h1]
+    split
+    · rename_i hl
+      have hM := take_nil_of_pos _ _ hp (lastRow?_none hl)
+      rw [hM]; simp
+    · rename_i r hl
+      have hr := lastRow?_mem hl
+      have hrM := List.mem_filter.mp (List.mem_of_mem_take hr)
+      have hcur : cur < r.rowid := by simpa using hrM.2
+      have hMasc : RowidsAsc (s.rows.filter (fun r => decide (cur < r.rowid))) :=
+        rowidsAsc_filter _ hasc
+      have hcut : s.rows.filter (fun x => decide (r.rowid < x.rowid))
+          = (s.rows.filter (fun r => decide (cur < r.rowid))).drop s.cfg.page := by
+        rw [← cursor_cut _ _ hMasc s.cfg.page r hl (fun x => decide (r.rowid < x.rowid))
+          (by intro x hx; simp; omega) (by simp) (by intro x hx; simpa using hx)]
+        rw [List.filter_filter]
+        apply List.filter_congr; intro x _
+        by_cases h : r.rowid < x.rowid
+        · have : cur < x.rowid := by omega
+          simp [h, this]
+        · simp [h]
+      have hlen : ((s.rows.filter (fun r => decide (cur < r.rowid))).take s.cfg.page).length ≥ 1 :=
+        List.length_pos_of_mem hr
+      have hsplit := congrArg List.length
+        (List.take_append_drop s.cfg.page (s.rows.filter (fun r => decide (cur < r.rowid))))
+      rw [List.length_append] at hsplit
+      have := ih (s.logSql "pageIter") r.rowid
+        (acc ++ (s.rows.filter (fun r => decide (cur < r.rowid))).take s.cfg.page) hasc hb hp
+        (by rw [logSql_rows, hcut]; omega)
+      rw [this, logSql_rows, hcut, List.append_assoc, List.take_append_drop]
+
+theorem iterLoop_desc (bound : Nat) : ∀ (fuel : Nat) (s : Cache) (cur : Nat) (acc : List Row),
+    RowidsAsc s.rows → (∀ r ∈ s.rows, 0 < r.rowid) → 0 < s.cfg.page →
+    (s.rows.filter (fun r => decide (r.rowid < cur))).length + 1 ≤ fuel →
+    (iterLoop false bound fuel s cur acc).2
+      = acc ++ (s.rows.filter (fun r => decide (r.rowid < cur))).reverse := by
+  intro fuel
+  induction fuel with
+  | zero => intro s cur acc _ _ _ hf; omega
+  | succ k ih =>
+    intro s cur acc hasc hpos hp hf
+    have h1 : s.rows.filter (fun r => decide (0 < r.rowid) && decide (r.rowid < cur))
+        = s.rows.filter (fun r => decide (r.rowid < cur)) := by
+      apply List.filter_congr; intro r hr; simp [hpos r hr]
+    simp only [iterLoop, Bool.false_eq_true, if_false, h1]
+    split
+    · rename_i hl
+      have hM := take_nil_of_pos _ _ hp (lastRow?_none hl)
+      rw [hM]; simp
+    · rename_i r hl
+      have hr := lastRow?_mem hl
+      have hrM := List.mem_filter.mp (List.mem_reverse.mp (List.mem_of_mem_take hr))
+      have hcur : r.rowid < cur := by simpa using hrM.2
+      have hMasc : (s.rows.filter (fun r => decide (r.rowid < cur))).reverse.Pairwise
+          (fun a b => b.rowid < a.rowid) :=
+        List.pairwise_reverse.mpr (rowidsAsc_filter _ hasc)
+      have hcut : (s.rows.filter (fun x => decide (x.rowid < r.rowid))).reverse
+          = (s.rows.filter (fun r => decide (r.rowid < cur))).reverse.drop s.cfg.page := by
+        rw [← cursor_cut _ _ hMasc s.cfg.page r hl (fun x => decide (x.rowid < r.rowid))
+          (by intro x hx; simp; omega) (by simp) (by intro x hx; simpa using hx)]
+        rw [List.filter_reverse, List.filter_filter]
+        congr 1
+        apply List.filter_congr; intro x _
+        by_cases h : x.rowid < r.rowid
+        · have : x.rowid < cur := by omega
+          simp [h, this]
+        · simp [h]
+      have hlen : ((s.rows.filter (fun r => decide (r.rowid < cur))).reverse.take s.cfg.page).length ≥ 1 :=
+        List.length_pos_of_mem hr
+      have hsplit := congrArg List.length
+        (List.take_append_drop s.cfg.page (s.rows.filter (fun r => decide (r.rowid < cur))).reverse)
+      rw [List.length_append, List.length_reverse] at hsplit
+      have hlen2 := congrArg List.length hcut
+      rw [List.length_reverse] at hlen2
+      have := ih (s.logSql "pageIter") r.rowid
+        (acc ++ (s.rows.filter (fun r => decide (r.rowid < cur))).reverse.take s.cfg.page) hasc hpos hp
+        (by rw [logSql_rows, hlen2]; omega)
+      rw [this, logSql_rows, hcut, List.append_assoc, List.take_append_drop]
+
+theorem le_maxRowid (rows : List Row) : ∀ r ∈ rows, r.rowid ≤ maxRowid rows := by
+  have key : ∀ (l : List Row) (init : Nat),
+      init ≤ l.foldl (fun m r => max m r.rowid) init ∧
+      ∀ r ∈ l, r.rowid ≤ l.foldl (fun m r => max m r.rowid) init := by
+    intro l
+    induction l with
+    | nil => intro init; simp
+    | cons a t ih =>
+      intro init
+      have := ih (max init a.rowid)
+      simp only [List.foldl_cons, List.mem_cons]
+      refine ⟨by omega, ?_⟩
+      rintro r (rfl | hr)
+      · omega
+      · exact this.2 r hr
+  exact (key rows 0).2
+
 end DC.Cache
